@@ -7,19 +7,35 @@ import os
 
 class SimTextSource(object):
     """Text stream whose read(n) returns the next prescribed piece (never more than n,
-    never '' before EOF): what a pipe, tty or socket-backed text stream may deliver."""
+    never '' before EOF): what a pipe, tty or socket-backed text stream may deliver.
+    With seekable=True it also offers tell() / seek() the way io.StringIO does (positions are character offsets);
+    the prescribed piece boundaries stay where they are in the text."""
 
-    def __init__(self, text, pieces, log=None, name='src'):
+    def __init__(self, text, pieces, log=None, name='src', seekable=False):
         assert sum(pieces) == len(text), (pieces, len(text))
         self.text = text
         self.pieces = list(pieces)
-        self.pi = 0          # index of the current piece
-        self.left = self.pieces[0] if self.pieces else 0   # chars left in the current piece
+        self.bounds = []      # absolute end offsets of the pieces
+        acc = 0
+        for p in self.pieces:
+            acc += p
+            self.bounds.append(acc)
         self.pos = 0
         self.requests = []   # (n, returned_len)
         self.closed = False
         self.log = log
         self.name = name
+        self.nseeks = 0
+        if seekable:
+            self.tell = self._tell
+            self.seek = self._seek
+            self.seekable = lambda: True
+
+    def _next_bound(self):
+        for b in self.bounds:
+            if b > self.pos:
+                return b
+        return len(self.text)
 
     def read(self, n=-1):
         if self.closed:
@@ -27,22 +43,28 @@ class SimTextSource(object):
         if n is None or n < 0:
             out = self.text[self.pos:]
             self.pos = len(self.text)
-            self.pi = len(self.pieces)
-            self.left = 0
         elif n == 0:
             out = ''
         else:
-            while self.left == 0 and self.pi < len(self.pieces):
-                self.pi += 1
-                self.left = self.pieces[self.pi] if self.pi < len(self.pieces) else 0
-            k = min(n, self.left)
+            k = min(n, self._next_bound() - self.pos)
             out = self.text[self.pos:self.pos + k]
             self.pos += k
-            self.left -= k
         self.requests.append((n, len(out)))
         if self.log is not None:
             self.log.add(self.name, 'read', n, len(out))
         return out
+
+    def _tell(self):
+        return self.pos
+
+    def _seek(self, offset, whence=0):
+        if whence != 0 or offset < 0:
+            raise io.UnsupportedOperation('can\'t do nonzero cur-relative seeks')
+        self.pos = min(offset, len(self.text))
+        self.nseeks += 1
+        if self.log is not None:
+            self.log.add(self.name, 'seek', offset)
+        return self.pos
 
     def close(self):
         self.closed = True
